@@ -21,6 +21,9 @@ NOT_DECIDED = [
 
 
 def run(ctx):
+    from ..rules import extra as _X6
+    _X6.rule_case_sensitive_callee(ctx, ['partitura.io.matchfile_utils', 'partitura.io.matchlines_v0', 'partitura.io.matchlines_v1', 'partitura.io.matchfile_base'], 'match line modules')
+    _X6.rule_keyname_pattern_guard(ctx)
     from ..rules import extra as _X4b
     _X4b.rule_info_attribute_normalised(ctx)
     from ..rules import extra as _X4
